@@ -1,6 +1,8 @@
 //! Verification harness for rust-circular-buffer (see /verif/DESIGN.md).
 //! Everything except `alloc_engine` needs the crate's default (`std`) feature set.
 pub mod alloc_engine;
+#[cfg(any(feature = "eio", feature = "eio-async"))]
+pub mod eio_trace;
 pub mod watch;
 
 #[cfg(feature = "cb-std")]
